@@ -400,8 +400,14 @@ func driveC12(c *Ctx) {
 	case 2:
 		n := c.W(5)
 		vals := make([]any, n)
+		numeric := c.W(4) == 0 // a list of numbers, the most common enum there is, in mixed spellings
 		for i := range vals {
 			vals[i] = GenValue(c, 2)
+			if numeric {
+				vals[i] = rerepr(c, pick(c, numberPool), 0)
+			} else if c.W(3) == 0 {
+				vals[i] = rerepr(c, vals[i], 1) // listed values in other Go representations (json.Number, ints)
+			}
 		}
 		schema = &jsonschema.Schema{Enum: vals}
 		if n > 0 && c.W(2) == 0 {
@@ -538,6 +544,46 @@ func driveC12(c *Ctx) {
 		}
 	}
 	simrt.SetHashMask(64)
+	simrt.SetOrderPolicy(simrt.OrderSorted)
+	// The same Resolved is asked about further instances: whatever it remembers from earlier
+	// calls must not change a verdict.
+	if mode >= 2 {
+		listed := items[:len(items)-1]
+		for h, nh := 0, 2+c.W(4); h < nh && len(listed) > 0; h++ {
+			var hi any
+			src := listed[c.W(len(listed))]
+			switch c.W(4) {
+			case 0:
+				hi = GenValue(c, 2)
+			case 1:
+				if canon(src) {
+					hi = nearMiss(c, src)
+				} else {
+					hi = GenValue(c, 1)
+				}
+			default:
+				hi = rerepr(c, clone0(src), 2)
+			}
+			hwant := false
+			for _, l := range listed {
+				if eq(l, hi) {
+					hwant = true
+				}
+			}
+			var verr error
+			r := Op(func() { verr = res.Validate(hi) })
+			c.CheckOp("Validate", r)
+			if r.Panicked {
+				c.Fail("C12/definition", "validate-"+r.String(), "Validate did not return normally: %s", r.Value)
+				return
+			}
+			if (verr == nil) != hwant {
+				c.Fail("C12/definition", kind+"-history", "later call %d on the same Resolved: %s over %q, instance %s: valid=%v, Equal to a listed value=%v; error: %v", h, kind, typed[:len(listed)], typedJSON(hi), verr == nil, hwant, verr)
+				return
+			}
+			c.Probe("later-instance-on-same-resolved")
+		}
+	}
 	// The hash law.
 	if simrt.HashValue != nil {
 		for _, p := range eqPairs {
